@@ -170,8 +170,14 @@ contract(T, 'BaseEphysReader.n_chunks', is_property=True, props=['C01'], params=
     ensures=[('number-of-chunks', 'result == len(self.chunk_bounds) - 1')])
 contract(T, 'BaseEphysReader.duration', is_property=True, props=['C01'], params={}, fields=FIELDS, requires=AWF, result='real',
     ensures=[('samples-over-rate', 'result == len(self.rows) / self.sample_rate')])
-contract(T, '_get_part_bounds', props=['C01'], params={'arrs': 'list[elem]'}, kind='assumed',
-    note='numpy cumsum over a list comprehension of shapes: bounded only')
+# part bounds of several files: 0, then the running totals of their row counts ("rows of the concatenation")
+from pyvc.contract import declare_ufunc
+declare_ufunc('n_rows', ['elem'], 'int')
+contract(T, '_get_part_bounds', props=['C01'], params={'arrs': 'list[elem]'}, result='list[int]',
+    requires=[('row-counts-are-not-negative', 'all(n_rows(arrs[k]) >= 0 for k in range(len(arrs)))')],
+    ensures=[('one-more-bound-than-files-starting-at-0', 'len(result) == len(arrs) + 1 and result[0] == 0'),
+             ('each-bound-adds-the-rows-of-one-file', 'all(result[k + 1] == result[k] + n_rows(arrs[k]) for k in range(len(arrs)))'),
+             ('bounds-never-decrease', 'all(result[k] <= result[k + 1] for k in range(len(arrs)))')])
 
 # ---------------------------------------------------------------------------------------------------------
 # _get_subitems for an index list / array (increasing row numbers): the pieces split the requested rows by part, in part order,
